@@ -135,6 +135,8 @@ class AXILMaster(Agent):
                     self.pres["aw"].append(t + 1)
                     w(b.aw.valid, 1)
                     w(b.aw.addr, op["addr"])
+                    if "prot" in op:
+                        w(b.aw.prot, op["prot"])
                     self.aw_on = True
             if not self.aw_on and v[b.aw.valid]:
                 w(b.aw.valid, 0)
@@ -169,6 +171,8 @@ class AXILMaster(Agent):
                     self.pres["ar"].append(t + 1)
                     w(b.ar.valid, 1)
                     w(b.ar.addr, self.reads_[self.ar_i]["addr"])
+                    if "prot" in self.reads_[self.ar_i]:
+                        w(b.ar.prot, self.reads_[self.ar_i]["prot"])
                     self.ar_on = True
             if not self.ar_on and v[b.ar.valid]:
                 w(b.ar.valid, 0)
@@ -199,7 +203,8 @@ class AXILSlave(Agent):
         self.silent_from = silent_from
         b = bus
         self.reads = (b.aw.valid, b.aw.ready, b.aw.addr, b.w.valid, b.w.ready, b.w.data, b.w.strb,
-                      b.b.valid, b.b.ready, b.ar.valid, b.ar.ready, b.ar.addr, b.r.valid, b.r.ready)
+                      b.b.valid, b.b.ready, b.ar.valid, b.ar.ready, b.ar.addr, b.r.valid, b.r.ready, b.aw.prot, b.ar.prot)
+        self.prot_log = {"aw": [], "ar": []}     # AxPROT of every accepted address beat, in order
         self.awq, self.wq = [], []
         self.wr_pending = []      # [ready_at, addr, data, strb]
         self.rd_pending = []      # [ready_at, addr]
@@ -228,7 +233,7 @@ class AXILSlave(Agent):
     def step(self, v, t, w):
         b = self.bus
         # ---- protocol: a raised valid is never withdrawn or changed before its ready
-        for ch, payload in (("aw", (b.aw.addr,)), ("w", (b.w.data, b.w.strb)), ("ar", (b.ar.addr,))):
+        for ch, payload in (("aw", (b.aw.addr, b.aw.prot)), ("w", (b.w.data, b.w.strb)), ("ar", (b.ar.addr, b.ar.prot))):
             chan = getattr(b, ch)
             cur = tuple(v[x] for x in payload) if v[chan.valid] else None
             held = self._held[ch]
@@ -241,6 +246,7 @@ class AXILSlave(Agent):
         # ---- completed handshakes
         if v[b.aw.valid] and v[b.aw.ready]:
             self.awq.append(v[b.aw.addr])
+            self.prot_log["aw"].append(v[b.aw.prot])
             self.log["aw"].append((t, v[b.aw.addr]))
             self.bench.event(self.name, "aw", t, v[b.aw.addr])
         if v[b.w.valid] and v[b.w.ready]:
@@ -249,6 +255,7 @@ class AXILSlave(Agent):
             self.bench.event(self.name, "w", t, v[b.w.data], v[b.w.strb])
         if v[b.ar.valid] and v[b.ar.ready]:
             self.rd_pending.append([t + self.lat[self.n_rd % len(self.lat)], v[b.ar.addr]])
+            self.prot_log["ar"].append(v[b.ar.prot])
             self.n_rd += 1
             self.log["ar"].append((t, v[b.ar.addr]))
             self.bench.event(self.name, "ar", t, v[b.ar.addr])
